@@ -25,24 +25,25 @@ type FSpec struct {
 }
 
 type ChainCfg struct {
-	Entry     string  `json:"entry"` // ServeHTTP | Dispatch | Mux | Nested | NestedFilter
-	Router    string  `json:"router"`
-	ContEnc   bool    `json:"container_encoding"`
-	RouteEnc  int     `json:"route_encoding"` // 0 unset, 1 true, 2 false
-	Provider  string  `json:"provider"`
-	WCap      int     `json:"wcap,omitempty"`
-	RCap      int     `json:"rcap,omitempty"`
-	Recover   int     `json:"recover"` // 0 off, 1 default handler, 2 custom handler
-	CustomErr bool    `json:"custom_service_error_handler"`
-	Flusher   bool    `json:"writer_is_flusher"`
-	Trace     bool    `json:"trace"`
-	Pretty    bool    `json:"pretty"`
-	CF        []FSpec `json:"container_filters"`
-	SF        []FSpec `json:"service_filters"`
-	RF        []FSpec `json:"route_filters"`
-	SF2       []FSpec `json:"service2_filters,omitempty"`
-	RF2       []FSpec `json:"route2_filters,omitempty"`
-	Preempt   int     `json:"preempt_permille"`
+	Entry      string  `json:"entry"` // ServeHTTP | Dispatch | Mux | Nested | NestedFilter
+	Router     string  `json:"router"`
+	ContEnc    bool    `json:"container_encoding"`
+	ContEncReg bool    `json:"container_encoding_while_registering"` // the switch is flipped to container_encoding before serving
+	RouteEnc   int     `json:"route_encoding"`                       // 0 unset, 1 true, 2 false
+	Provider   string  `json:"provider"`
+	WCap       int     `json:"wcap,omitempty"`
+	RCap       int     `json:"rcap,omitempty"`
+	Recover    int     `json:"recover"` // 0 off, 1 default handler, 2 custom handler
+	CustomErr  bool    `json:"custom_service_error_handler"`
+	Flusher    bool    `json:"writer_is_flusher"`
+	Trace      bool    `json:"trace"`
+	Pretty     bool    `json:"pretty"`
+	CF         []FSpec `json:"container_filters"`
+	SF         []FSpec `json:"service_filters"`
+	RF         []FSpec `json:"route_filters"`
+	SF2        []FSpec `json:"service2_filters,omitempty"`
+	RF2        []FSpec `json:"route2_filters,omitempty"`
+	Preempt    int     `json:"preempt_permille"`
 }
 
 type ChainReq struct {
@@ -352,7 +353,9 @@ func (e *chainEnv) build(encOff bool) (c *restful.Container, outer *restful.Cont
 	if cfg.Router == "jsr311" {
 		c.Router(restful.RouterJSR311{})
 	}
-	c.EnableContentEncoding(cfg.ContEnc && !encOff)
+	// registration happens under one setting of the switch, serving under the final one: nothing may
+	// remember the value it saw at registration time
+	c.EnableContentEncoding(cfg.ContEncReg && !encOff)
 	c.DoNotRecover(cfg.Recover == 0)
 	if cfg.Recover == 2 {
 		c.RecoverHandler(func(v interface{}, w http.ResponseWriter) {
@@ -417,6 +420,7 @@ func (e *chainEnv) build(encOff bool) (c *restful.Container, outer *restful.Cont
 	c.Add(ws2)
 	c.Handle("/plain/", e.plainHandler("plain"))
 	c.HandleWithFilter("/plainf/", e.plainHandler("plainf"))
+	c.EnableContentEncoding(cfg.ContEnc && !encOff)
 	if cfg.Entry == "Nested" || cfg.Entry == "NestedFilter" {
 		outer = restful.NewContainer()
 		outer.EnableContentEncoding(!encOff)
@@ -627,6 +631,10 @@ func genChainCfg(tp *sim.Tape, k chainKnobs) *ChainCfg {
 	cfg.Router = []string{"curly", "jsr311"}[tp.G(2)]
 	if k.encoding {
 		cfg.ContEnc = tp.G(3) != 2
+		cfg.ContEncReg = cfg.ContEnc
+		if tp.Chance(250) {
+			cfg.ContEncReg = !cfg.ContEnc
+		}
 		cfg.RouteEnc = tp.G(3)
 		switch tp.G(4) {
 		case 0:
